@@ -105,6 +105,13 @@ func c11Gen(t *rapid.T) C11Case {
 	if chance(t, "acrpn", 20) {
 		c.Req.Hdr = append(c.Req.Hdr, HV{hACRPN, Vals("true")})
 	}
+	genOtherHeaders(t, &c.Req)
+	if chance(t, "target", 15) {
+		c.Req.Target = pick(t, "targetv", []string{"*", "*", "/a/b?x=1", "/*"})
+	}
+	if chance(t, "proto", 10) {
+		c.Req.Proto = pick(t, "protov", []string{"1.0", "2"})
+	}
 	// pre-set response headers from an outer wrapper
 	for i, n := 0, uniform(t, "npreset", 4); i < n; i++ {
 		k := pick(t, "presetkey", []string{"Vary", "Vary", "X-Pre", "Content-Type", "Access-Control-Allow-Origin", "Access-Control-Expose-Headers", "Set-Cookie", "X-Frame-Options"})
